@@ -1,6 +1,7 @@
 package main
 
 import (
+	"go/constant"
 	"fmt"
 	"go/token"
 	"go/types"
@@ -16,6 +17,17 @@ func (f *Frame) allocRef(hint string) string {
 	r := e.define(hint, "Int", cur)
 	e.assert(fmt.Sprintf("(> %s 0)", r))
 	e.hset(f.heap, av, fmt.Sprintf("(+ %s 1)", cur))
+	if f.curBlock != nil {
+		n := 0
+		for i := len(f.allocRecs) - 1; i >= 0 && n < 6; i-- {
+			rec := f.allocRecs[i]
+			if rec.blk == f.curBlock || rec.blk.Dominates(f.curBlock) {
+				e.assert(fmt.Sprintf("(< %s %s)", rec.term, r))
+				n++
+			}
+		}
+		f.allocRecs = append(f.allocRecs, allocRec{f.curBlock, r})
+	}
 	return r
 }
 
@@ -346,6 +358,15 @@ func (f *Frame) binop(x *ssa.BinOp) {
 		if x.Op == token.AND || x.Op == token.SHR || x.Op == token.OR || x.Op == token.XOR || x.Op == token.SHL || x.Op == token.AND_NOT {
 			e.note("bit operations are uninterpreted (machine arithmetic is not modelled)")
 			e.assumeWF("", f.vals[x].T, x.Type())
+			// x & c with a non-negative constant c never exceeds c (true of the machine
+			// operation whatever the other operand is)
+			if x.Op == token.AND {
+				for _, side := range []ssa.Value{x.X, x.Y} {
+					if c, ok := side.(*ssa.Const); ok && c.Value != nil && c.Value.Kind() == constant.Int && constant.Sign(c.Value) >= 0 {
+						e.assert(fmt.Sprintf("(and (<= 0 %s) (<= %s %s))", f.vals[x].T, f.vals[x].T, c.Value.ExactString()))
+					}
+				}
+			}
 		}
 		return
 	}
